@@ -1,140 +1,23 @@
-/- GENERATED by tools/translate.py from /repo's working tree — do not edit. -/
-namespace TomlVerif.Gen
+/-! The model's pinned copy of `toml_internal!`: every arm in SOURCE ORDER (`pattern => expansion`, blanks
+    normalised), the `toml!` macro and the functions of crates/toml/src/macros.rs, as they were when
+    Model/Macro.lean was written and validated. Gen/CheckMacro.lean proves that tools/translate.py still reads
+    exactly this text from /repo; a re-ordered, added, removed or edited arm or helper breaks that theorem, and
+    the model has to be reviewed before this copy is regenerated (tools/gen_macro_arms.py). Implemented by
+    (Model/Macro.lean):
+      @toplevel          toplevel (key arms: keyPath, rewriteSignTop, firstDt [] · dtArms, value; header arms: headerPath, pushToml / headerTable)
+      @topleveldatetime  toplevel → dtValue, insertToml
+      @path              pathStr
+      @value             value / parenValue / litValue
+      @table             table (keyPath, rewriteSignComma, firstDt comma · dtArms, value)
+      @tabledatetime     table → dtValue, insertToml
+      @array             array (rewriteSignComma, firstDt comma · dtArms, value)
+      @arraydatetime     array → dtValue
+      @trailingcomma     withComma
+-/
+namespace TomlVerif.Model.Macro
 
-def trivia_COMMENT_START_SYMBOL : UInt8 := 35
-def trivia_CR : UInt8 := 13
-def trivia_LF : UInt8 := 10
-def trivia_NON_ASCII (b : UInt8) : Bool := (decide (128 ≤ b.toNat) && decide (b.toNat ≤ 255))
-def trivia_NON_EOL (b : UInt8) : Bool := ((b.toNat == 9) || (decide (32 ≤ b.toNat) && decide (b.toNat ≤ 126)) || (decide (128 ≤ b.toNat) && decide (b.toNat ≤ 255)))
-def trivia_WSCHAR (b : UInt8) : Bool := ((b.toNat == 32) || (b.toNat == 9))
-def strings_APOSTROPHE : UInt8 := 39
-def strings_BASIC_UNESCAPED (b : UInt8) : Bool := (((b.toNat == 32) || (b.toNat == 9)) || (b.toNat == 33) || (decide (35 ≤ b.toNat) && decide (b.toNat ≤ 91)) || (decide (93 ≤ b.toNat) && decide (b.toNat ≤ 126)) || (decide (128 ≤ b.toNat) && decide (b.toNat ≤ 255)))
-def strings_ESCAPE : UInt8 := 92
-def strings_LITERAL_CHAR (b : UInt8) : Bool := ((b.toNat == 9) || (decide (32 ≤ b.toNat) && decide (b.toNat ≤ 38)) || (decide (40 ≤ b.toNat) && decide (b.toNat ≤ 126)) || (decide (128 ≤ b.toNat) && decide (b.toNat ≤ 255)))
-def strings_MLB_UNESCAPED (b : UInt8) : Bool := (((b.toNat == 32) || (b.toNat == 9)) || (b.toNat == 33) || (decide (35 ≤ b.toNat) && decide (b.toNat ≤ 91)) || (decide (93 ≤ b.toNat) && decide (b.toNat ≤ 126)) || (decide (128 ≤ b.toNat) && decide (b.toNat ≤ 255)))
-def strings_MLL_CHAR (b : UInt8) : Bool := ((b.toNat == 9) || (decide (32 ≤ b.toNat) && decide (b.toNat ≤ 38)) || (decide (40 ≤ b.toNat) && decide (b.toNat ≤ 126)) || (decide (128 ≤ b.toNat) && decide (b.toNat ≤ 255)))
-def strings_ML_BASIC_STRING_DELIM : List UInt8 := [34, 34, 34]
-def strings_ML_LITERAL_STRING_DELIM : List UInt8 := [39, 39, 39]
-def strings_QUOTATION_MARK : UInt8 := 34
-def key_DOT_SEP : UInt8 := 46
-def key_UNQUOTED_CHAR (b : UInt8) : Bool := ((decide (65 ≤ b.toNat) && decide (b.toNat ≤ 90)) || (decide (97 ≤ b.toNat) && decide (b.toNat ≤ 122)) || (decide (48 ≤ b.toNat) && decide (b.toNat ≤ 57)) || (b.toNat == 45) || (b.toNat == 95))
-def numbers_BIN_PREFIX : List UInt8 := [48, 98]
-def numbers_DIGIT (b : UInt8) : Bool := (decide (48 ≤ b.toNat) && decide (b.toNat ≤ 57))
-def numbers_DIGIT0_1 (b : UInt8) : Bool := (decide (48 ≤ b.toNat) && decide (b.toNat ≤ 49))
-def numbers_DIGIT0_7 (b : UInt8) : Bool := (decide (48 ≤ b.toNat) && decide (b.toNat ≤ 55))
-def numbers_DIGIT1_9 (b : UInt8) : Bool := (decide (49 ≤ b.toNat) && decide (b.toNat ≤ 57))
-def numbers_FALSE : List UInt8 := [102, 97, 108, 115, 101]
-def numbers_HEXDIG (b : UInt8) : Bool := ((decide (48 ≤ b.toNat) && decide (b.toNat ≤ 57)) || (decide (65 ≤ b.toNat) && decide (b.toNat ≤ 70)) || (decide (97 ≤ b.toNat) && decide (b.toNat ≤ 102)))
-def numbers_HEX_PREFIX : List UInt8 := [48, 120]
-def numbers_INF : List UInt8 := [105, 110, 102]
-def numbers_NAN : List UInt8 := [110, 97, 110]
-def numbers_OCT_PREFIX : List UInt8 := [48, 111]
-def numbers_TRUE : List UInt8 := [116, 114, 117, 101]
-def datetime_DIGIT (b : UInt8) : Bool := (decide (48 ≤ b.toNat) && decide (b.toNat ≤ 57))
-def datetime_TIME_DELIM (b : UInt8) : Bool := ((b.toNat == 84) || (b.toNat == 116) || (b.toNat == 32))
-def array_ARRAY_CLOSE : UInt8 := 93
-def array_ARRAY_OPEN : UInt8 := 91
-def array_ARRAY_SEP : UInt8 := 44
-def inline_table_INLINE_TABLE_CLOSE : UInt8 := 125
-def inline_table_INLINE_TABLE_OPEN : UInt8 := 123
-def inline_table_INLINE_TABLE_SEP : UInt8 := 44
-def inline_table_KEYVAL_SEP : UInt8 := 61
-def table_ARRAY_TABLE_CLOSE : List UInt8 := [93, 93]
-def table_ARRAY_TABLE_OPEN : List UInt8 := [91, 91]
-def table_STD_TABLE_CLOSE : UInt8 := 93
-def table_STD_TABLE_OPEN : UInt8 := 91
-def parser_mod_LIMIT : Nat := 80
-def e_table_DEFAULT_KEY_DECOR : List UInt8 × List UInt8 := ([], [32])
-def e_table_DEFAULT_KEY_PATH_DECOR : List UInt8 × List UInt8 := ([], [])
-def e_table_DEFAULT_ROOT_DECOR : List UInt8 × List UInt8 := ([], [])
-def e_table_DEFAULT_TABLE_DECOR : List UInt8 × List UInt8 := ([10], [])
-def e_value_DEFAULT_LEADING_VALUE_DECOR : List UInt8 × List UInt8 := ([], [])
-def e_value_DEFAULT_TRAILING_VALUE_DECOR : List UInt8 × List UInt8 := ([32], [32])
-def e_value_DEFAULT_VALUE_DECOR : List UInt8 × List UInt8 := ([32], [])
-def e_inline_DEFAULT_INLINE_KEY_DECOR : List UInt8 × List UInt8 := ([32], [32])
-
-/-- arms of `escape_seq_char`: (byte after the backslash, kind, payload): kind 0 = literal code point, kind 1 = N hex digits -/
-def escapeArms : List (UInt8 × Nat × Nat) := [(98, 0, 8), (102, 0, 12), (110, 0, 10), (114, 0, 13), (116, 0, 9), (117, 1, 4), (85, 1, 8), (92, 0, 92), (34, 0, 34)]
-/-- arms of the escaped writer in `write_toml_value`: (byte, escape text, only-when-not-multiline) -/
-def writeEscArms : List (UInt8 × List UInt8 × Bool) := [(8, [92, 98], false), (9, [92, 116], false), (10, [92, 110], true), (12, [92, 102], false), (13, [92, 114], false), (34, [], false), (92, [92, 92], false)]
-def writeCtlLe : Nat := 31
-def writeCtlEq : Nat := 127
-def writeMaxSeqMl : Nat := 2
-def writeMaxSeqSingle : Nat := 0
-structure VM where (maxSingle maxDouble : Nat) (escapeCodes escape newline : Bool)
-structure KM where (unquoted singleQuotes doubleQuotes escapeCodes escape : Bool)
-def guard_v_literal (m : VM) : Bool := m.escapeCodes || decide (0 < m.maxSingle) || m.newline
-def guard_v_ml_literal (m : VM) : Bool := m.escapeCodes || decide (2 < m.maxSingle)
-def guard_v_basic_pretty (m : VM) : Bool := m.escapeCodes || m.escape || decide (0 < m.maxDouble) || m.newline
-def guard_v_ml_basic_pretty (m : VM) : Bool := m.escapeCodes || m.escape || decide (2 < m.maxDouble)
-def guard_k_literal (m : KM) : Bool := m.escapeCodes || m.singleQuotes
-def guard_k_basic_pretty (m : KM) : Bool := m.escapeCodes || m.escape || m.doubleQuotes
-def vDefaultChain : List String := ["as_basic_pretty", "as_literal", "as_ml_basic_pretty", "as_ml_literal", "as_ml_basic", "as_basic"]
-def kDefaultChain : List String := ["as_unquoted", "as_basic_pretty", "as_literal", "as_basic"]
-/-- (lo, hi, min digits, max digits) of the document parser's date-time fields -/
-def doc_date_month : Nat × Nat × Nat × Nat := (1, 12, 2, 2)
-def doc_date_mday : Nat × Nat × Nat × Nat := (1, 31, 2, 2)
-def doc_time_hour : Nat × Nat × Nat × Nat := (0, 23, 2, 2)
-def doc_time_minute : Nat × Nat × Nat × Nat := (0, 59, 2, 2)
-def doc_time_second : Nat × Nat × Nat × Nat := (0, 60, 2, 2)
-def doc_date_fullyear_digits : Nat × Nat := (4, 4)
-def doc_month_arms : String := "2 if is_leap_year => 29, 2 => 28, 4 | 6 | 9 | 11 => 30, _ => 31,"
-def doc_leap : String := "(year % 4 == 0) && ((year % 100 != 0) || (year % 400 == 0))"
-def doc_SCALE : List Nat := [0, 100000000, 10000000, 1000000, 100000, 10000, 1000, 100, 10, 1]
-def doc_offset_range : Int × Int := (-1440, 1440)
-def std_month : List Int := [1, 12]
-def std_day : List Int := [1]
-def std_hour : List Int := [23]
-def std_minute : List Int := [59]
-def std_second : List Int := [60]
-def std_nanosecond : List Int := [999999999]
-def std_offset_fields : List Int := [23, 59]
-def std_offset_total : List Int := [-24, 60, 24, 60]
-def std_minlen : List Int := [3]
-def std_frac_digits : List Int := [9]
-def std_frac_pow : List Int := [8]
-def std_month_arms : String := "2 if is_leap_year => 29, 2 => 28, 4 | 6 | 9 | 11 => 30, _ => 31,"
-def std_leap : String := "(date.year % 4 == 0) && ((date.year % 100 != 0) || (date.year % 400 == 0))"
-def std_time_delims : List UInt8 := [84, 116, 32]
-def std_display_formats : List String := ["{:04}-{:02}-{:02}", "{:02}:{:02}:{:02}", ".{}", "Z", "{sign}{hours:02}:{minutes:02}", "{:09}"]
-def float_verify : String := "!f.is_infinite()"
-def integer_arms : List (String × String × Nat) := [("0x", "hex_int", 16), ("0o", "oct_int", 8), ("0b", "bin_int", 2)]
-def write_f32_arms : List (String × String × String × String) := [("true", "true", "_", "-nan"), ("false", "true", "_", "nan"), ("true", "false", "true", "-0.0"), ("false", "false", "true", "0.0"), ("_", "false", "false", "")]
-def write_f32_inner : List String := ["{self}.0", "{self}"]
-def write_f32_integral_test : Bool := true
-def write_f64_arms : List (String × String × String × String) := [("true", "true", "_", "-nan"), ("false", "true", "_", "nan"), ("true", "false", "true", "-0.0"), ("false", "false", "true", "0.0"), ("_", "false", "false", "")]
-def write_f64_inner : List String := ["{self}.0", "{self}"]
-def write_f64_integral_test : Bool := true
-/-- potential panic sites (expect / unwrap / unreachable! / panic! / assert!) of the anchored files, in source order -/
-def panicSites : List String := [
-  "toml_edit/parser/trivia.rs:from_utf8_unchecked:expect",
-  "toml_edit/parser/numbers.rs:special_float:unreachable!",
-  "toml_edit/parser/datetime.rs:time_offset:unreachable!",
-  "toml_edit/parser/datetime.rs:date_fullyear:expect",
-  "toml_edit/parser/datetime.rs:date_month:expect",
-  "toml_edit/parser/datetime.rs:date_mday:expect",
-  "toml_edit/parser/datetime.rs:time_hour:expect",
-  "toml_edit/parser/datetime.rs:time_minute:expect",
-  "toml_edit/parser/datetime.rs:time_second:expect",
-  "toml_edit/parser/key.rs:key:expect",
-  "toml_edit/parser/key.rs:key:expect",
-  "toml_edit/parser/state.rs:finalize_table:assert!",
-  "toml_edit/parser/state.rs:descend_path:unwrap()",
-  "toml_edit/parser/state.rs:descend_path:unreachable!",
-  "toml_edit/parser/document.rs:parse_keyval:expect",
-  "toml_edit/parser/inline_table.rs:keyval:expect",
-  "toml_edit/parser/error.rs:duplicate_key:assert!",
-  "toml_edit/parser/error.rs:duplicate_key:unwrap()",
-  "toml_edit/parser/error.rs:extend_wrong_type:assert!",
-  "toml_edit/raw_string.rs:to_str:panic!",
-  "toml_edit/raw_string.rs:to_str_with_default:panic!",
-  "toml_edit/raw_string.rs:despan:panic!",
-  "toml_edit/error.rs:new:expect",
-  "toml_edit/error.rs:fmt:expect",
-  "toml_datetime/datetime.rs:type_name:unreachable!",
-]
-/-- arms of `toml_internal!` (crates/toml/src/macros.rs) in source order: `pattern => expansion`, blanks normalised -/
-def macroArms : List String := [
+def armHeads : List String := [
+  -- @toplevel
   "(@toplevel $root:ident [$($path:tt)*]) => {}",
   "(@toplevel $root:ident [$($path:tt)*] $($($k:tt)-+).+ = - $v:tt $($rest:tt)*) => { $crate::toml_internal!(@toplevel $root [$($path)*] $($($k)-+).+ = (-$v) $($rest)*); }",
   "(@toplevel $root:ident [$($path:tt)*] $($($k:tt)-+).+ = + $v:tt $($rest:tt)*) => { $crate::toml_internal!(@toplevel $root [$($path)*] $($($k)-+).+ = ($v) $($rest)*); }",
@@ -152,9 +35,12 @@ def macroArms : List String := [
   "(@toplevel $root:ident [$($path:tt)*] $($($k:tt)-+).+ = $v:tt $($rest:tt)*) => {{ $crate::macros::insert_toml( &mut $root, &[$($path)* $(&concat!($(\"-\", $crate::toml_internal!(@path $k),)+)[1..], )+], $crate::toml_internal!(@value $v)); $crate::toml_internal!(@toplevel $root [$($path)*] $($rest)*); }}",
   "(@toplevel $root:ident $oldpath:tt [[$($($path:tt)-+).+]] $($rest:tt)*) => { $crate::macros::push_toml( &mut $root, &[$(&concat!($(\"-\", $crate::toml_internal!(@path $path),)+)[1..],)+]); $crate::toml_internal!(@toplevel $root [$(&concat!($(\"-\", $crate::toml_internal!(@path $path),)+)[1..],)+] $($rest)*); }",
   "(@toplevel $root:ident $oldpath:tt [$($($path:tt)-+).+] $($rest:tt)*) => { $crate::macros::table_toml( &mut $root, &[$(&concat!($(\"-\", $crate::toml_internal!(@path $path),)+)[1..],)+]); $crate::toml_internal!(@toplevel $root [$(&concat!($(\"-\", $crate::toml_internal!(@path $path),)+)[1..],)+] $($rest)*); }",
+  -- @topleveldatetime
   "(@topleveldatetime $root:ident [$($path:tt)*] $($($k:tt)-+).+ = ($($datetime:tt)+) $($rest:tt)*) => { $crate::macros::insert_toml( &mut $root, &[$($path)* $(&concat!($(\"-\", $crate::toml_internal!(@path $k),)+)[1..], )+], $crate::Value::Datetime(concat!($(stringify!($datetime)),+).parse().unwrap())); $crate::toml_internal!(@toplevel $root [$($path)*] $($rest)*); }",
+  -- @path
   "(@path $ident:ident) => { stringify!($ident) }",
   "(@path $quoted:tt) => { $quoted }",
+  -- @value
   "(@value { $($inline:tt)* }) => {{ let mut table = $crate::Value::Table($crate::value::Table::new()); $crate::toml_internal!(@trailingcomma (@table table) $($inline)*); table }}",
   "(@value [ $($inline:tt)* ]) => {{ let mut array = $crate::value::Array::new(); $crate::toml_internal!(@trailingcomma (@array array) $($inline)*); $crate::Value::Array(array) }}",
   "(@value (-nan)) => { $crate::Value::Float(::std::f64::NAN.copysign(-1.0)) }",
@@ -164,6 +50,7 @@ def macroArms : List String := [
   "(@value (inf)) => { $crate::Value::Float(::std::f64::INFINITY) }",
   "(@value inf) => { $crate::Value::Float(::std::f64::INFINITY) }",
   "(@value $v:tt) => {{ let de = $crate::macros::IntoDeserializer::<$crate::de::Error>::into_deserializer($v); <$crate::Value as $crate::macros::Deserialize>::deserialize(de).unwrap() }}",
+  -- @table
   "(@table $root:ident) => {}",
   "(@table $root:ident $($($k:tt)-+).+ = - $v:tt , $($rest:tt)*) => { $crate::toml_internal!(@table $root $($($k)-+).+ = (-$v) , $($rest)*); }",
   "(@table $root:ident $($($k:tt)-+).+ = + $v:tt , $($rest:tt)*) => { $crate::toml_internal!(@table $root $($($k)-+).+ = ($v) , $($rest)*); }",
@@ -179,7 +66,9 @@ def macroArms : List String := [
   "(@table $root:ident $($($k:tt)-+).+ = $hr:tt : $min:tt : $sec:tt . $frac:tt , $($rest:tt)*) => { $crate::toml_internal!(@tabledatetime $root $($($k)-+).+ = ($hr : $min : $sec . $frac) $($rest)*); }",
   "(@table $root:ident $($($k:tt)-+).+ = $hr:tt : $min:tt : $sec:tt , $($rest:tt)*) => { $crate::toml_internal!(@tabledatetime $root $($($k)-+).+ = ($hr : $min : $sec) $($rest)*); }",
   "(@table $root:ident $($($k:tt)-+).+ = $v:tt , $($rest:tt)*) => { $crate::macros::insert_toml( &mut $root, &[$(&concat!($(\"-\", $crate::toml_internal!(@path $k),)+)[1..], )+], $crate::toml_internal!(@value $v)); $crate::toml_internal!(@table $root $($rest)*); }",
+  -- @tabledatetime
   "(@tabledatetime $root:ident $($($k:tt)-+).+ = ($($datetime:tt)*) $($rest:tt)*) => { $crate::macros::insert_toml( &mut $root, &[$(&concat!($(\"-\", $crate::toml_internal!(@path $k),)+)[1..], )+], $crate::Value::Datetime(concat!($(stringify!($datetime)),+).parse().unwrap())); $crate::toml_internal!(@table $root $($rest)*); }",
+  -- @array
   "(@array $root:ident) => {}",
   "(@array $root:ident - $v:tt , $($rest:tt)*) => { $crate::toml_internal!(@array $root (-$v) , $($rest)*); }",
   "(@array $root:ident + $v:tt , $($rest:tt)*) => { $crate::toml_internal!(@array $root ($v) , $($rest)*); }",
@@ -195,14 +84,16 @@ def macroArms : List String := [
   "(@array $root:ident $hr:tt : $min:tt : $sec:tt . $frac:tt , $($rest:tt)*) => { $crate::toml_internal!(@arraydatetime $root ($hr : $min : $sec . $frac) $($rest)*); }",
   "(@array $root:ident $hr:tt : $min:tt : $sec:tt , $($rest:tt)*) => { $crate::toml_internal!(@arraydatetime $root ($hr : $min : $sec) $($rest)*); }",
   "(@array $root:ident $v:tt , $($rest:tt)*) => { $root.push($crate::toml_internal!(@value $v)); $crate::toml_internal!(@array $root $($rest)*); }",
+  -- @arraydatetime
   "(@arraydatetime $root:ident ($($datetime:tt)*) $($rest:tt)*) => { $root.push($crate::Value::Datetime(concat!($(stringify!($datetime)),+).parse().unwrap())); $crate::toml_internal!(@array $root $($rest)*); }",
+  -- @trailingcomma
   "(@trailingcomma ($($args:tt)*)) => { $crate::toml_internal!($($args)*); }",
   "(@trailingcomma ($($args:tt)*) ,) => { $crate::toml_internal!($($args)* ,); }",
   "(@trailingcomma ($($args:tt)*) $last:tt) => { $crate::toml_internal!($($args)* $last ,); }",
   "(@trailingcomma ($($args:tt)*) $first:tt $($rest:tt)+) => { $crate::toml_internal!(@trailingcomma ($($args)* $first) $($rest)+); }"
 ]
-/-- the `toml!` macro and every function of macros.rs, blanks normalised -/
-def macroHelpers : List String := [
+
+def helperSrc : List String := [
   "macro_rules! toml { ($($toml:tt)+) => {{ let table = $crate::value::Table::new(); let mut root = $crate::Value::Table(table); $crate::toml_internal!(@toplevel root [] $($toml)+); match root { $crate::Value::Table(table) => table, _ => unreachable!(), } }}; }",
   "pub fn insert_toml(root: &mut Value, path: &[&str], value: Value) { *traverse(root, path) = value; }",
   "pub fn table_toml(root: &mut Value, path: &[&str]) { let target = traverse(root, path); if !target.is_table() { *target = Value::Table(Table::new()); } }",
@@ -210,4 +101,10 @@ def macroHelpers : List String := [
   "fn traverse<'a>(root: &'a mut Value, path: &[&str]) -> &'a mut Value { let mut cur = root; for &key in path { let cur1 = cur; let cur2 = if cur1.is_array() { cur1.as_array_mut().unwrap().last_mut().unwrap() } else { cur1 }; if !cur2.is_table() { *cur2 = Value::Table(Table::new()); } if !cur2.as_table().unwrap().contains_key(key) { let empty = Value::Table(Table::new()); cur2.as_table_mut().unwrap().insert(key.to_owned(), empty); } cur = cur2.as_table_mut().unwrap().get_mut(key).unwrap(); } cur }"
 ]
 
-end TomlVerif.Gen
+/-- the helper the `[table]` header arm calls; `insert_toml` assigns an EMPTY table (defect F8) -/
+def headerFnName : String := "table_toml"
+
+/-- does the `[table]` header arm keep an existing table? (`insert_toml` does not) -/
+def headerKeeps : Bool := headerFnName != "insert_toml"
+
+end TomlVerif.Model.Macro
